@@ -93,9 +93,8 @@ var (
 
 func seeds64() [][]byte {
 	var out [][]byte
-	for _, i := range []int{0, 1, 3, 4, 7, 10} {
-		w := pool64(true)[i].Build()
-		b, _ := w.B.ToBytes()
+	for _, r := range pool64Named(true, "{}", "{0}", "{bucket0: few, bucket1: few}", "{range across 2^32}", "{buckets 0,2,0xFFFFFFFF}", "{buckets 0..3 one value each}") {
+		b, _ := r.Build().B.ToBytes()
 		out = append(out, b)
 	}
 	return out
@@ -244,7 +243,7 @@ func runC18(c *Ctx) {
 				rb = pool[(idx[0]+3)%len(pool)].Build().B // previously held something else
 			default:
 				rb = roaring64.New()
-				other, _ := pool[5].Build().B.ToBytes()
+				other, _ := pool64Named(true, "{bucket1 big run, bucket2 stripe}")[0].Build().B.ToBytes()
 				rb.FromUnsafeBytes(shapes.Aligned(other))
 			}
 			api := decoders64[idx[1]]
